@@ -1,7 +1,7 @@
 """C20 — protocol decoding (logging) is purely observational: a non-interference argument by effect analysis."""
 from core import rule, loc_of
 from facts import AnchorLost, norm
-import q, effects
+import q, effects, inline
 from tables import *
 from rules.c08 import one
 from rules.c11 import CL, EXEC, RUN_ONE
@@ -159,22 +159,31 @@ def r3(c):
             pl = s['pl']
             if pl['p'] and pl['p'][-1].startswith('field:') and pl['p'][-1].split(':', 2)[2] == 'decode' and 'deref' in pl['p']:
                 writers.add(P.logical_name(b))
-    want = {'rodbus::server::task::SessionTask::apply_command', CL + '::change_setting', 'rodbus::tcp::server::ServerTask::apply_command'}
-    c.ob('writers', writers == want, 'self.decode is assigned only by SessionTask::apply_command, ClientLoop::change_setting and ServerTask::apply_command', str(sorted(writers)))
-    for f, adt, variant in (('rodbus::server::task::SessionTask::apply_command', 'rodbus::server::task::ServerCommand', 'ChangeDecoding'), (CL + '::change_setting', 'rodbus::client::message::Setting', 'DecodeLevel'),
-                            ('rodbus::tcp::server::ServerTask::apply_command', 'rodbus::server::task::ServerCommand', 'ChangeDecoding')):
+    allowed = {'rodbus::server::task::SessionTask::apply_command', 'rodbus::server::task::SessionTask::run_one', 'rodbus::server::task::SessionTask::process_commands',
+               CL + '::change_setting', 'rodbus::tcp::server::ServerTask::apply_command'}
+    c.ob('writers', bool(writers) and writers <= allowed and CL + '::change_setting' in writers and 'rodbus::tcp::server::ServerTask::apply_command' in writers,
+         'self.decode is assigned only by the command / setting handlers of the session, the client loop and the server task', str(sorted(writers)))
+    ARMS = {'rodbus::server::task::ServerCommand': 'ChangeDecoding', 'rodbus::client::message::Setting': 'DecodeLevel'}
+    n_set = 0
+    for f in sorted(writers & allowed):
         b = P.fn(f)
-        arms = q.arms_of(b, adt)
-        reg = set()
-        for e, r in arms.get(variant, []):
-            reg |= r
         st = [(i, s) for i, s in b.assigns() if 'deref' in s['pl']['p'] and s['pl']['p'][-1].endswith(':decode')]
-        ok = len(st) == 1 and (('b', st[0][0]) in reg or any(q.dom(b, e, ('b', st[0][0])) for e, _ in arms.get(variant, [])))
-        if ok:
-            v = q.sem(b, st[0][1]['rv']['a'][0])
-            ok = (':' + variant) in ''.join(v.proj)
-        other = [s for i, s in b.assigns() if ('b', i) in reg and 'deref' in s['pl']['p'] and not s['pl']['p'][-1].endswith(':decode') and not s.get('exp')]
-        c.ob('setter/%s' % f.split('::')[-2], ok and not other, 'the %s arm stores the new level and changes nothing else' % variant, '', loc_of(b))
+        for i, s in st:
+            n_set += 1
+            ok = False
+            for adt, variant in ARMS.items():
+                arms = q.arms_of(b, adt)
+                edges = [e for e, _ in arms.get(variant, [])]
+                reg = set()
+                for e, r in arms.get(variant, []):
+                    reg |= r
+                if edges and (('b', i) in reg or q.dominated_by_any(b, edges, ('b', i))):
+                    v = q.sem(b, s['rv']['a'][0]) if s['rv']['r'] == 'use' else None
+                    okv = v is not None and (':' + variant) in ''.join(v.proj)
+                    other = [s2 for i2, s2 in b.assigns() if ('b', i2) in reg and 'deref' in s2['pl']['p'] and not s2['pl']['p'][-1].endswith(':decode') and not s2.get('exp')]
+                    ok = okv and not other
+            c.ob('setter/%s' % f.split('::', 2)[-1], ok, 'the level is stored only on the ChangeDecoding / DecodeLevel arm, it is that command\'s payload, and the arm changes nothing else', '', loc_of(b, i, stmt=s))
+    c.floor('stores to self.decode', n_set, 3)
     # changing the level does not end or restart anything: the setting arm of run_cmd returns Ok unless disabled
     rc = P.fn(CL + '::run_cmd')
     c.ob('client/no-interrupt', len(rc.calls(CL + '::change_setting')) == 1, 'a level change is applied between transactions (run_cmd handles one command at a time)', '', loc_of(rc))
@@ -220,10 +229,12 @@ def r5(c):
     c05.r7(c)
     P = c.P
     # on the server the only thing raced with the frame reader is the command queue; applying ChangeDecoding returns Ok
-    ro = P.fn('rodbus::server::task::SessionTask::run_one')
-    ac = one(ro.calls('rodbus::server::task::SessionTask::apply_command'), 'apply_command')
-    okc, how, why = q.success_leaves(ro, ac)
-    c.ob('server/command-continues', okc, 'after a successfully applied command run_one returns Ok: the session loop goes on with the same reader', '%s: %s' % (how, why), ac.loc())
+    from rules import c15
+    ro = inline.expand(P, P.fn('rodbus::server::task::SessionTask::run_one'), {c15.APPLY})
+    arms = c15.command_arms(c, ro)
+    xs = c15.exits_from(ro, arms.get('ChangeDecoding', []))
+    c.ob('server/command-continues', bool(xs) and all(cl == 'success' for _, cl in xs), 'after a level change was applied run_one returns Ok: the session loop goes on with the same reader',
+         '%d arms, exits %s' % (len(arms.get('ChangeDecoding', [])), [(x['kind'], cl) for x, cl in xs]), loc_of(ro))
 
 
 @rule('C20', 'R20.6', 'a run-time level change reaches the sessions without ending any of them: it is forwarded best-effort by the server task (C15/R15.3)')
